@@ -27,6 +27,7 @@ const (
 	KWatcher Kind = iota
 	KAsync
 	KExplicit
+	KEntries
 )
 
 type PC int
@@ -148,6 +149,7 @@ type Model struct {
 	LastTaken map[int]int
 	Events    []Event    // oldest first
 	Hooks     []HookCall // oldest first
+	Ehooks    []HookCall // block-hook calls of entries syncs, oldest first
 	Panicked  bool
 	Ordered   bool
 	Regress   bool
@@ -308,14 +310,14 @@ func (m *Model) Step(t int, ok bool) (y Yield, spawned int) {
 		y = Yield{Point: YAsyncTaken}
 	case EGet:
 		th.H = m.getHandler(t, p)
-		if m.V.LockFix {
+		if m.V.LockFix || th.Kind == KEntries {
 			th.PC = PLockS
 		} else {
 			th.PC = PRead
 		}
 	case PLockS:
 		m.Smu[h] = t
-		if m.V.LockFix {
+		if m.V.LockFix && th.Kind != KEntries {
 			th.PC = PRead
 		} else {
 			th.PC = PHandle
@@ -360,7 +362,11 @@ func (m *Model) Step(t int, ok bool) (y Yield, spawned int) {
 	case PHandle:
 		if ok {
 			th.Ok = true
-			th.Todo = Walk(th.Stop, th.Msg)
+			if th.Kind == KEntries {
+				th.Todo = desc(th.Msg, th.Msg)
+			} else {
+				th.Todo = Walk(th.Stop, th.Msg)
+			}
 			th.PC = PReport
 		} else {
 			th.Ok = false
@@ -371,7 +377,11 @@ func (m *Model) Step(t int, ok bool) (y Yield, spawned int) {
 		if len(th.Todo) > 0 {
 			a := th.Todo[0]
 			th.Todo = th.Todo[1:]
-			m.Hooks = append(m.Hooks, HookCall{T: t, Pub: p, Ad: a})
+			if th.Kind == KEntries {
+				m.Ehooks = append(m.Ehooks, HookCall{T: t, Pub: p, Ad: a})
+			} else {
+				m.Hooks = append(m.Hooks, HookCall{T: t, Pub: p, Ad: a})
+			}
 			y = Yield{Point: YHook, Ad: a}
 		} else {
 			th.PC = PUnlocking
@@ -381,7 +391,9 @@ func (m *Model) Step(t int, ok bool) (y Yield, spawned int) {
 		if !m.V.LockFix {
 			delete(m.Smu, h)
 		}
-		if th.Kind == KExplicit {
+		if th.Kind == KEntries {
+			th.PC = m.exitPC(KEntries)
+		} else if th.Kind == KExplicit {
 			if th.Ok {
 				th.PC = PHandled
 				y = Yield{Point: YSyncHandled}
@@ -447,6 +459,13 @@ func (m *Model) SpawnExplicit(p int) int {
 	t := len(m.Threads)
 	m.Threads = append(m.Threads, &Thread{Kind: KExplicit, PC: EGet, Pub: p})
 	m.Nexp = true
+	return t
+}
+
+// SpawnEntries: a caller enters SyncEntries for an entries chain of n blocks.
+func (m *Model) SpawnEntries(p, n int) int {
+	t := len(m.Threads)
+	m.Threads = append(m.Threads, &Thread{Kind: KEntries, PC: EGet, Pub: p, Msg: n})
 	return t
 }
 
